@@ -342,62 +342,44 @@ theorem lenInv_densePass (d1 : Doc) (start : Nat) (h : LenInv d1) (d' : Doc) (hs
   unfold densePass at hs
   split at hs
   · cases hs
-  · split at hs
-    · cases hs
-    · cases hs
-      exact lenInv_traverse _ (tame_rename _) _ _ (movePass_vals _ _ _ _ h)
+  · cases hs
+    exact lenInv_traverse _ (tame_rename _) _ _ (movePass_vals _ _ _ _ h)
 
-theorem decCounts_vals (fuel : Nat) (os : Objects) (r : Option ObjId) (os' : Objects)
-    (hd : decCounts fuel os r = some os') (h : ValsOK os) : ValsOK os' := by
-  induction fuel generalizing os r with
-  | zero =>
-    cases r with
-    | none => simp [decCounts] at hd; rw [← hd]; exact h
-    | some id => simp [decCounts] at hd
-  | succ n ih =>
-    cases r with
-    | none => simp [decCounts] at hd; rw [← hd]; exact h
-    | some id =>
-      simp only [decCounts] at hd
-      split at hd
-      · exact ih _ _ hd (valsOK_set os id _ h trivial)
-      · simp at hd; rw [← hd]; exact h
+theorem decCounts_vals (os : Objects) (seen : List ObjId) (r : Option ObjId) (h : ValsOK os) :
+    ValsOK (decCounts os seen r) := by
+  induction os, seen, r using decCounts.induct with
+  | case1 os seen => rw [decCounts_none]; exact h
+  | case2 os seen id hs => rw [decCounts_seen _ _ _ hs]; exact h
+  | case3 os seen id hs pt hg ih =>
+    rw [decCounts_dict _ _ _ pt (by simpa using hs) hg]
+    exact ih (valsOK_set os id _ h trivial)
+  | case4 os seen id hs hne =>
+    rw [decCounts_other _ _ _ (by simpa using hs) (fun pt h' => hne pt h')]; exact h
 
-theorem lenInv_deletePage1 (pages : List ObjId) (a : Doc) (n : Nat) (h : LenInv a) (x : Doc)
-    (hx : deletePage1 pages a n = some x) : LenInv x := by
-  unfold deletePage1 at hx
-  split at hx
-  · cases hx; exact h
+theorem lenInv_deletePage1 (pages : List ObjId) (a : Doc) (n : Nat) (h : LenInv a) : LenInv (deletePage1 pages a n) := by
+  unfold deletePage1
+  split
+  · exact h
   · rename_i pid _
     have hwd := lenInv_deleteObject a pid h
     cases hdo : deleteObject a pid with
     | mk d2 ro =>
-      rw [hdo] at hx hwd
+      rw [hdo] at hwd
       cases ro with
-      | none => simp at hx; subst hx; exact hwd
-      | some page =>
-        simp only [Option.map_eq_some_iff] at hx
-        obtain ⟨os, hdc, rfl⟩ := hx
-        exact decCounts_vals _ _ _ _ hdc hwd
+      | none => exact hwd
+      | some page => exact decCounts_vals _ _ _ hwd
 
-theorem lenInv_deletePages (d : Doc) (nums : List Nat) (h : LenInv d) (d' : Doc) (hs : deletePages d nums = some d') : LenInv d' := by
-  unfold deletePages at hs
-  simp only at hs
-  generalize pageIter d.trailer d.objects = pages at hs
-  have key : ∀ (nums : List Nat) (acc : Option Doc) (d' : Doc), (∀ x, acc = some x → LenInv x) →
-      nums.foldl (fun (acc : Option Doc) n => acc.bind fun d => deletePage1 pages d n) acc = some d' → LenInv d' := by
+theorem lenInv_deletePages (d : Doc) (nums : List Nat) (h : LenInv d) : LenInv (deletePages d nums) := by
+  unfold deletePages
+  simp only
+  generalize pageIter d.trailer d.objects = pages
+  have key : ∀ (nums : List Nat) (acc : Doc), LenInv acc →
+      LenInv (nums.foldl (fun acc n => deletePage1 pages acc n) acc) := by
     intro nums
     induction nums with
-    | nil => intro acc d' hacc h; exact hacc d' h
-    | cons n rest ih =>
-      intro acc d' hacc h
-      simp only [List.foldl_cons] at h
-      apply ih _ d' _ h
-      intro x hx
-      cases acc with
-      | none => simp at hx
-      | some a => exact lenInv_deletePage1 pages a n (hacc a rfl) x hx
-  exact key nums (some d) d' (by intro x hx; cases hx; exact h) hs
+    | nil => intro acc hacc; exact hacc
+    | cons n rest ih => intro acc hacc; simp only [List.foldl_cons]; exact ih _ (lenInv_deletePage1 pages acc n hacc)
+  exact key nums d h
 
 theorem lenInv_setObj (d : Doc) (k : ObjId) (v : Obj) (h : LenInv d) (hv : LenOK v) : LenInv { d with objects := d.objects.set k v } :=
   valsOK_set _ _ _ h hv
